@@ -200,3 +200,76 @@ func verifIsValid(r *Rule) bool {
 	c := *r
 	return IsValidRule(&c) == nil
 }
+
+// VerifC13FieldDiff: a reload whose rule differs from the rule in force in exactly ONE field (any of the
+// behavioural fields, one at a time) puts the new rule in force — the controller that decides afterwards is
+// bound to the new values, and a reload that differs in nothing keeps reporting "unchanged".
+// Every field of the base rule is populated so that each single-field edit stays valid.
+func VerifC13FieldDiff() {
+	system_metric.TotalMemorySize = 1 << 40
+	rt.SetClockMs(10000000)
+	base := &Rule{Resource: "A", RefResource: "B",
+		TokenCalculateStrategy: []TokenCalculateStrategy{Direct, WarmUp, MemoryAdaptive}[rt.Choice(3)],
+		ControlBehavior:        []ControlBehavior{Reject, Throttling}[rt.Choice(2)],
+		RelationStrategy:       []RelationStrategy{CurrentResource, AssociatedResource}[rt.Choice(2)],
+		Threshold:              float64(5 + rt.U32n("thr", 3)), MaxQueueingTimeMs: 10, WarmUpPeriodSec: 10, WarmUpColdFactor: 3,
+		StatIntervalInMs:      []uint32{0, 700}[rt.Choice(2)],
+		LowMemUsageThreshold:  1000, HighMemUsageThreshold: 10, MemLowWaterMarkBytes: 1000, MemHighWaterMarkBytes: 2000}
+	snap := *base
+	if _, err := LoadRules([]*Rule{base}); err != nil {
+		rt.Assert(false, "initial load failed")
+		return
+	}
+	nr := snap
+	d := 1 + rt.U32n("delta", 3)
+	switch rt.Choice(14) {
+	case 0: // no edit at all
+	case 1:
+		nr.Threshold += float64(d)
+	case 2:
+		nr.RelationStrategy = AssociatedResource - nr.RelationStrategy
+	case 3:
+		nr.RefResource = "C"
+	case 4:
+		nr.StatIntervalInMs += 300 * uint32(d)
+	case 5:
+		nr.TokenCalculateStrategy = (nr.TokenCalculateStrategy + 1) % 3
+	case 6:
+		nr.ControlBehavior = Throttling - nr.ControlBehavior
+	case 7:
+		nr.MaxQueueingTimeMs += uint32(d)
+	case 8:
+		nr.WarmUpPeriodSec += uint32(d)
+	case 9:
+		nr.WarmUpColdFactor += uint32(d)
+	case 10:
+		nr.LowMemUsageThreshold += int64(d)
+	case 11:
+		nr.HighMemUsageThreshold += int64(d)
+	case 12:
+		nr.MemLowWaterMarkBytes += int64(d)
+	case 13:
+		nr.MemHighWaterMarkBytes += int64(d)
+	}
+	same := nr == snap
+	if !verifIsValid(&nr) {
+		rt.Assert(false, "a single-field edit of the populated base rule stays valid")
+		return
+	}
+	want := nr
+	arg := nr
+	changed := false
+	if rt.Bool("perResource") {
+		changed, _ = LoadRulesOfResource("A", []*Rule{&arg})
+	} else {
+		changed, _ = LoadRules([]*Rule{&arg})
+	}
+	rt.Assert(changed == !same, "a reload reports a change exactly when a field differs")
+	got, tcs := getRulesOfResource("A"), getTrafficControllerListFor("A")
+	rt.Reach("c13.fielddiff")
+	if len(got) != 1 || len(tcs) != 1 {
+		rt.Assert(false, "one rule and one controller in force after the reload")
+		return
+	}
+	rt.Assert(*got[0] == want && *tcs[0].BoundRule() == want, "after a reload that edits one field the enforced controller is bound to the new values")
+}
